@@ -202,6 +202,8 @@ PROPS = {
         families=[
             dict(mode="live", name="cancel", quick=360, thorough=6000, nontrivial=r" fetch_or ", timeout=600),
             dict(mode="live", name="cancel_mutex", quick=360, thorough=6000, nontrivial=r"sync\.blocking\.(unparked|release)@\S+ (load|swap) ", timeout=600),
+            # oracle only (no replay model attached): cancel during the re-lock inside Condvar::wait (b_ignore path, F11)
+            dict(mode="live", name="cancel_cvlock", quick=120, thorough=2000, nontrivial=r" q\.push ", timeout=600),
         ],
         trusted_base=TB_COMMON + [
             "live mode: the recorded trace (a linearization of the hooked operations, logged under one lock) is the replay artefact; schedules come from the OS plus seeded perturbation",
